@@ -49,6 +49,16 @@ def obligations(ex, lem):
     pc = [req]
     for u in lem.uses:
         pc.append(statement(ex, ex.reg.lemmas[u]))
+    for call in lem.uses_at:
+        st0 = State()
+        oldp = ex.pure
+        ex.pure = True
+        try:
+            ce0 = CEval(ex, st0, None, None, None, dict(consts))
+            args = [ce0.ev(a) for a in call.args]
+        finally:
+            ex.pure = oldp
+        pc.append(instance_at(ex, ex.reg.lemmas[call.func.id], args))
     out = []
     if lem.induct is not None:
         n = consts[lem.induct]
